@@ -512,6 +512,14 @@ func (d *driver) finish(kf *knownFile) int {
 	for _, s := range sideKeys {
 		fmt.Printf("note: while checking %s the monitors of another property fired: %s (x%d) - decided by that property's own check\n", d.prop, s, a.side[s])
 	}
+	// linearizability checks that ran out of time are inconclusive observations; a few of them on a loaded
+	// machine do not void the run, more than 5 % do
+	for _, e := range []string{"allocconc", "rangeconc", "prefixconc"} {
+		unk, ok := a.counters[e+".porcupine_unknown"], a.counters[e+".porcupine_ok"]
+		if unk > 0 && unk*20 > ok+unk {
+			a.inconclusive = append(a.inconclusive, fmt.Sprintf("%s: porcupine timed out on %d of %d histories (more than 5 %%)", e, unk, ok+unk))
+		}
+	}
 	// vacuity guards
 	for _, g := range d.spec.guards {
 		if a.counters[g.counter] < g.min {
